@@ -1209,6 +1209,10 @@ class PulseSequence:
         # do to get the state at an arbitrary time t_{l-1} <= t < t_l is
         # propagate with a time-delta t - t_{l-1} and H_{l}
         self.diagonalize()
+        t = np.asarray(t)
+        if (t > self.t[-1]).any():
+            raise ValueError('Times t should not exceed the duration of the pulse')
+
         idx = np.searchsorted(self.t, t) - 1
         # Manually set possible negative idx's to zero (happens for t = 0)
         idx[idx < 0] = 0
